@@ -53,6 +53,7 @@ Report ==
   /\ Rep("NoNewTasksWhilePaused", NoNewTasksWhilePaused(P, O))
   /\ Rep("NoNewTasksAfterStop", NoNewTasksAfterStop(P, O, Ev))
   /\ Rep("WaitingStaysAfterStop", WaitingStaysAfterStop(P, O, Ev))
+  /\ Rep("ParentSuccessNeedsChildren", ParentSuccessNeedsChildren(O))
   /\ Rep("PauseAck", PauseAck(P, O, Ev, Ev.target))
   /\ Rep("StopAck", StopAck(P, O, Ev, Ev.target, Ev.arg))
   /\ Rep("TreeCancelled", TreeCancelled(O))
